@@ -218,6 +218,9 @@ func genHistory(seed int64, i int) *History {
 	if i%18 == 13 {
 		h.Kind = "overlap"
 	}
+	if i%18 == 16 {
+		h.Kind = "reload-shared"
+	}
 	h.D = 300 + r.Intn(7)*100
 	h.M = 1 + r.Intn(3)
 	h.T = 500 + r.Intn(8)*100
@@ -273,6 +276,8 @@ func run(c *fw.Ctx) {
 					limitMultiPeer(c, canary, h)
 				case "overlap":
 					overlap(c, canary, h)
+				case "reload-shared":
+					reloadShared(c, canary, h)
 				}
 			}(h)
 		}
@@ -704,6 +709,8 @@ func replay(c *fw.Ctx, raw json.RawMessage) {
 		limitMultiPeer(c, canary, h)
 	case "overlap":
 		overlap(c, canary, h)
+	case "reload-shared":
+		reloadShared(c, canary, h)
 	}
 }
 
@@ -823,4 +830,98 @@ func limitMultiPeer(c *fw.Ctx, canary *oracle.Canary, h *History) {
 	}
 	hmods.SelectLog(sel)
 	c.Case(fw.Hash("limit-multipeer", h.Max, outcomes), true, func() any { return map[string]any{"history": h, "outcomes": outcomes} })
+}
+
+// reloadShared: a dial address that two upstreams of one handler list ({A} limited to one connection, and {A, M}), a
+// connection held open through the first upstream, and the configuration reloaded several times meanwhile. In every
+// generation the limited upstream has its one connection, so probes must be given to the second upstream (they reach
+// M as well); once the held connection ends, the limited upstream takes a connection again (M sees nothing of it).
+func reloadShared(c *fw.Ctx, canary *oracle.Canary, h *History) {
+	A, err := newUpstream()
+	if err != nil {
+		c.Inconclusive("listen: " + err.Error())
+		return
+	}
+	M, _ := newUpstream()
+	defer A.release()
+	defer M.release()
+	sel := nextTag("sel")
+	ups := []map[string]any{
+		{"dial": []string{"tcp/" + A.addr}, h.Via: 1},
+		{"dial": []string{"tcp/" + A.addr, "tcp/" + M.addr}},
+	}
+	var extra map[string]any
+	if h.Via == "unhealthy_connection_count" {
+		delete(ups[0], h.Via)
+		extra = map[string]any{"health_checks": map[string]any{"passive": map[string]any{"unhealthy_connection_count": 1}}}
+		// (the passive limit applies to every upstream of the handler: the second one is then judged by A's count as well,
+		// so with this variant a probe finds no upstream at all while the connection is held)
+	}
+	routes := proxyRoutes(ups, extra, sel)
+	app, err := drive.StartApp(routes, "5s")
+	if err != nil {
+		report(c, h, "config-rejected", err.Error(), routes)
+		return
+	}
+	defer func() { app.Stop() }()
+	heldTag := nextTag("rs")
+	at, held, heldRec := connect(app, A, nil, heldTag, true, 5*time.Second)
+	if at.outcome != "A" || held == nil {
+		report(c, h, "unexpected-outcome", "the first connection ended as "+at.outcome, nil)
+		return
+	}
+	if M.waitHas(heldTag, 100*time.Millisecond) {
+		report(c, h, "unexpected-outcome", "the first connection was given to the second upstream although the first one was free", nil)
+	}
+	outcomes := ""
+	probe := func(gen int) {
+		tag := nextTag("rs")
+		at, _, _ := connect(app, A, nil, tag, false, 5*time.Second)
+		viaSecond := at.outcome == "A" && M.waitHas(tag, 2*time.Second)
+		switch {
+		case extra != nil:
+			outcomes += at.outcome[:1]
+			if at.outcome != "fail" {
+				report(c, h, "limit-lost-on-reload", fmt.Sprintf("generation %d of the configuration: address A has one proxied connection open (unhealthy_connection_count 1), yet a new connection was relayed (%s)", gen, at.outcome), map[string]any{"outcomes": outcomes})
+			}
+		case viaSecond:
+			outcomes += "2"
+		default:
+			outcomes += at.outcome[:1]
+			report(c, h, "limit-lost-on-reload", fmt.Sprintf("generation %d of the configuration: the upstream limited to one connection has one open, yet a new connection ended as %q without reaching the second upstream's other address", gen, at.outcome), map[string]any{"outcomes": outcomes})
+		}
+		if st, ok := counters(A); !ok || st.NumConns < 1 {
+			report(c, h, "connection-count-wrong", fmt.Sprintf("generation %d: a proxied connection to A is open, but the pool counts %d (known: %v)", gen, st.NumConns, ok), nil)
+		}
+	}
+	probe(1)
+	reloads := 2 + h.Steps%3
+	for g := 2; g <= 1+reloads; g++ {
+		next, err := drive.StartApp(routes, "5s")
+		if err != nil {
+			report(c, h, "config-rejected", err.Error(), routes)
+			break
+		}
+		app.Stop()
+		app = next
+		probe(g)
+	}
+	_ = held.CloseWrite()
+	heldRec.WaitDone("span", 5*time.Second)
+	_ = held.Close()
+	hmods.Untrack(heldTag)
+	tag := nextTag("rs")
+	at2, _, _ := connect(app, A, nil, tag, false, 5*time.Second)
+	outcomes += "/" + at2.outcome[:1]
+	if at2.outcome != "A" || M.waitHas(tag, 150*time.Millisecond) {
+		report(c, h, "limit-not-released", fmt.Sprintf("after the held connection ended the limited upstream should take the next connection; it ended as %q (second upstream's other address saw it: %v)", at2.outcome, M.has(tag)), nil)
+	}
+	if st, ok := counters(A); ok && st.NumConns != 0 {
+		time.Sleep(30 * time.Millisecond)
+		if st2, _ := counters(A); st2.NumConns != 0 {
+			report(c, h, "connection-count-wrong", fmt.Sprintf("no proxied connection is open, yet A counts %d", st2.NumConns), nil)
+		}
+	}
+	hmods.SelectLog(sel)
+	c.Case(fw.Hash("reload-shared", h.Via, reloads, outcomes), true, func() any { return map[string]any{"history": h, "outcomes": outcomes} })
 }
